@@ -23,6 +23,9 @@ struct Op {
     int storage = 0;             // 0 SLU_NC, 1 SLU_NR
     int mat = 0;                 // index into TaskPlan::mats (kind == new)
     std::string reader;          // "" | hb | rb | mm | triple : create through the reader fed by an in-memory file
+    int rsym = 0;                // reader file in symmetric storage (hb/rb/mm): lower triangle written, the reader expands it
+    int rbase0 = 0;              // coordinate file (mm/triple) with zero-based indices
+    int rfmt = 0;                // hb/rb: which edit descriptors the file uses
     // values of this step (same pattern); empty = keep/restore the slot's original values
     std::vector<double> re, im; std::string vchange;
     uint64_t permc_seed = 0;     // MY_PERMC: caller-supplied ordering
